@@ -144,6 +144,9 @@ HEADER = """pub(crate) fn generate_arithm%(suffix)s(&mut self, l: &ExprType, op:
             // the value: the returned expression denotes `l op r` for this byte; for + and - the carry is the one the next byte needs
             (res is Ok && (res->Ok_0 is A || res->Ok_0 is Tmp || res->Ok_0 is X || res->Ok_0 is Y)) ==> bv(final(self).gh@, res->Ok_0, high_byte) == expect(old(self).gh@, *l, *op, *r, high_byte).0, //@ C01,C15:arithm-value
             (res is Ok && (res->Ok_0 is A || res->Ok_0 is Tmp) && (*op is Add || *op is Sub)) ==> final(self).gh@.c == expect(old(self).gh@, *l, *op, *r, high_byte).1, //@ C01:arithm-carry-out
+            // the low-byte pass of a 16-bit expression runs completely before the high-byte pass: a second + / - of the high-byte pass would consume a carry
+            // the low-byte pass has overwritten, and is rejected (carry_propagation_error is the generator's record of "a high-byte + / - has been emitted")
+            (res is Ok && (*op is Add || *op is Sub) && (res->Ok_0 is A || res->Ok_0 is Tmp)) ==> !(old(self).carry_propagation_error && high_byte) && final(self).carry_propagation_error == high_byte, //@ C01:arithm-chained-high-byte-carry-rejected
             // (the folded value of two constants is U-fold's subject)
             (res is Ok && res->Ok_0 is Immediate) ==> final(self).gh@ == old(self).gh@,
             // nothing else is disturbed: index registers, the stack, and a live accumulator that is not an operand
